@@ -304,7 +304,7 @@ func diffKind(ref, got StoredRow) string {
 }
 
 func checkC05(c *vlib.Ctx) {
-	c.Rule("(A) histories of 3-8 single-measurement write requests (line protocol over the three endpoints = row-format WAL entries; MessagePack columnar = raw-envelope entries; MessagePack row) over 3 databases, timestamps now / before 1970 / 1970-01-01 / before 1970-04-27, columns named database, measurement, m, _database, _measurement; each history is run crash-free on a real arc process (reference) and again with a SIGKILL at an enumerated point: after the last acknowledgement, at the n-th wal.entry.before_write / after_write, at ingest.flush.before_write / after_write, and optionally a second kill during the next startup at wal.recover.after_replay / wal.recover.after_delete / main.recovery.done; then restart, flush, read the Parquet files with an independent reader. Oracle: every row of a request that was acknowledged AND whose WAL entry was observed in the file before the kill (hook trace) is stored, in the same database/measurement, with the same columns, values and timestamp as in the crash-free run. (B) concurrent family: 8 clients write 60 requests each to 8 DIFFERENT databases at the same time (MessagePack columnar, optionally mixed with line protocol), nothing is flushed, the process is killed once every acknowledged request's WAL entry was observed in the file, restarted, and every acknowledged row must be stored exactly once under the database it was written to. non-trivial = distinct (history, crash plan) pairs and concurrent runs")
+	c.Rule("(A) histories of 3-8 single-measurement write requests (line protocol over the three endpoints = row-format WAL entries; MessagePack columnar = raw-envelope entries; MessagePack row) over 3 databases, timestamps now / before 1970 / 1970-01-01 / before 1970-04-27, columns named database, measurement, m, _database, _measurement; each history is run crash-free on a real arc process (reference) and again with a SIGKILL at an enumerated point: after the last acknowledgement, at the n-th wal.entry.before_write / after_write, at ingest.flush.before_write / after_write, and optionally a second kill during the next startup at wal.recover.after_replay / wal.recover.after_delete / main.recovery.done; then restart, flush, read the Parquet files with an independent reader. Oracle: every row of a request that was acknowledged AND whose WAL entry was observed in the file before the kill (hook trace) is stored, in the same database/measurement, with the same columns, values and timestamp as in the crash-free run. (B) concurrent family: 8 clients write 60 requests each to 8 DIFFERENT databases at the same time (MessagePack columnar, optionally mixed with line protocol), nothing is flushed, the process is killed once every acknowledged request's WAL entry was observed in the file, restarted, and every acknowledged row must be stored exactly once under the database it was written to. (C) one line-protocol request of 65535 / 65536 / 70001 rows of one measurement (a single row-format WAL entry on either side of the msgpack array16/array32 boundary), killed before any flush: every row must come back. non-trivial = distinct (history, crash plan) pairs, concurrent runs and large-entry runs")
 	c.Assume("crash = process death (SIGKILL); data written to the WAL file is considered to have reached it (no power-loss model)")
 	c.Assume("the k-th accepted request owns the k-th WAL entry: requests are sent one at a time and each carries one measurement")
 	c.Assume("duplicates of rows that had already been flushed before the kill are counted, not reported: the property requires the rows to be present and unchanged")
@@ -397,6 +397,15 @@ func checkC05(c *vlib.Ctx) {
 			defer func() { <-sem }()
 			runC05Concurrent(c, v)
 		}(v)
+	}
+	for _, n := range []int{65535, 65536, 70001} {
+		wg.Add(1)
+		sem <- struct{}{}
+		go func(n int) {
+			defer wg.Done()
+			defer func() { <-sem }()
+			runC05LargeEntry(c, n)
+		}(n)
 	}
 	wg.Wait()
 	c.Extra("crash_plans", len(cases))
@@ -522,6 +531,80 @@ func runC05Concurrent(c *vlib.Ctx, variant int) {
 	}
 	if dup > 0 {
 		c.Violation("concurrent writers to different databases: row stored more than once although nothing had been flushed before the kill", d)
+	}
+	c.Sample(d)
+}
+
+// ---- large row-format entry family ----
+//
+// One line-protocol request with n rows of ONE measurement becomes one row-format WAL
+// entry (a msgpack array of n maps); n straddles the array16/array32 boundary.
+func runC05LargeEntry(c *vlib.Ctx, n int) {
+	a := NewArc(ArcCfg{MaxBufferSize: 10000000, MaxBufferAgeMS: 600000, WAL: true})
+	defer a.Remove()
+	if ready, _ := a.Start(); !ready {
+		c.Inconclusive("instance did not become ready")
+		return
+	}
+	var sb strings.Builder
+	base := int64(n) * 1_000_000
+	for i := 0; i < n; i++ {
+		fmt.Fprintf(&sb, "big,host=h rid=%di,v=%d %d\n", base+int64(i), i%97, 1_700_000_000+i%3000)
+	}
+	code, _, err := a.Post("/write?db=bigdb&precision=s", nil, []byte(sb.String()))
+	if err != nil || code < 200 || code >= 300 {
+		c.Inconclusive(fmt.Sprintf("large request (%d rows) not acknowledged: code=%d err=%v", n, code, err))
+		return
+	}
+	walWritten := 0
+	for w := 0; w < 100 && walWritten == 0; w++ {
+		for _, e := range a.Events() {
+			if e["ev"] == "wal.entry.written" {
+				walWritten++
+			}
+		}
+		time.Sleep(50 * time.Millisecond)
+	}
+	a.Kill()
+	c.Count("kills", 1)
+	if walWritten == 0 {
+		c.Inconclusive("large entry had not reached the WAL file at the kill")
+		return
+	}
+	if ready, _ := a.Start(); !ready {
+		c.Violation("server does not start after crash: large row-format entry", map[string]any{"rows": n, "log": a.LogTail(a.runs, 30)})
+		return
+	}
+	a.Post("/api/v1/write/line-protocol/flush", nil, nil)
+	want := []int64{base, base + int64(n)/2, base + int64(n) - 1}
+	st, _ := waitRows(a.DataRoot(), want, 30*time.Second)
+	time.Sleep(500 * time.Millisecond)
+	if st2, _, err := readStore(a.DataRoot()); err == nil {
+		st = st2
+	}
+	a.Kill()
+	c.Eval()
+	c.Nontrivial(fmt.Sprintf("large-entry/%d", n))
+	lost, dup := 0, 0
+	for i := 0; i < n; i++ {
+		k := len(st[base+int64(i)])
+		if k == 0 {
+			lost++
+		} else if k > 1 {
+			dup++
+		}
+	}
+	c.Count("rows_checked", int64(n))
+	d := map[string]any{"rows_in_request": n, "lost": lost, "duplicated": dup}
+	if lost > 0 {
+		enc := "array16 (<65536 rows)"
+		if n >= 65536 {
+			enc = "array32 (>=65536 rows)"
+		}
+		c.Violation("large row-format WAL entry: acknowledged rows lost after crash ["+enc+"]", d)
+	}
+	if dup > 0 {
+		c.Violation("large row-format WAL entry: rows stored more than once although nothing had been flushed before the kill", d)
 	}
 	c.Sample(d)
 }
